@@ -22,6 +22,12 @@ and director frame) and the SAME grid object, refreshed as every interaction doe
 gaussian (non-uniform around the circumference) force field; 2-D bodies with d3 = -z and non-zero spin are required.  Not added: a sibling interaction with another dx (each new
 (dx, N) pair costs ~25 s of numba compilation in 3-D; C06/C07/C10 own that dimension).
 
+Self-test of the added dimension: surface grid whose ``transfer_forcing_from_grid_to_body`` uses the moment arms of its FIRST
+call (sed, stale cache) -> VIOLATION moment-balance|surface3d on 'gauss-after-body-change' and on the one-hot fields after the
+change.  Control: a surface grid that caches rod.radius at construction CONSISTENTLY (positions and moment arms both stale)
+stays HELD here -- the balance is stated for the marker positions the grid publishes; that change is C09's
+(marker-distance-from-element-centre|surface3d).
+
 Observed sign convention (matches the property text): ``lag_grid_forcing_field`` F_m is the force ON THE FLUID; it is
 spread to the Eulerian forcing field (sum_c f_c dx^d = sum_m F_m) and the body receives -F_m.
 
